@@ -1,6 +1,7 @@
 (* Properties.v - the property theorems and nothing else.  Every theorem is
    closed by [exact <lemma>] and followed by Print Assumptions. *)
-From NTRIP Require Import Base Bits BitsProofs Crc CrcProofs Time Classify Frame FrameSpec FrameProofs Html Queue QueueProofs ClassifyProofs Retry RetryProofs TimeSpec History WriteProofs EncProofs TimeProofs SegProofs Msm Station StationProofs Range RangeProofs FloatProofs.
+From NTRIP Require Import Base Bits BitsProofs Crc CrcProofs Time Classify Frame FrameSpec FrameProofs Html Queue QueueProofs ClassifyProofs Retry RetryProofs TimeSpec History WriteProofs EncProofs TimeProofs SegProofs Msm Station StationProofs Range RangeProofs FloatProofs Net ProdCons MsmSpec MsmProofs.
+From NTRIPGen Require Import GenConsts.
 From Coq Require Import Reals Floats.
 From Flocq Require Import Core IEEE754.BinarySingleNaN IEEE754.PrimFloat.
 From NTRIPGen Require Import ClassifyTable.
@@ -408,3 +409,89 @@ Example C08_example :
   scaled_range 80 512 (-5) = 43218108411%N /\ agg_range4 80 512 7 = agg_range7 80 512 224 /\
   float_bits (range_m 43218108411) = 4717243441704860898%N.
 Proof. repeat split; vm_compute; reflexivity. Qed.
+
+(* ===================== C11 ===================== *)
+(* displayrtcm3 and rtcmfilter: the entry point hands every message to a writer goroutine over
+   a channel, closes the channel and waits for the writer.  In EVERY reachable configuration of
+   that network - every interleaving, every channel capacity >= 1 (Go's unbuffered channel being
+   the capacity-1 case with immediate receive), every writer latency lat (internal steps per
+   write) - once the entry point has returned the writer has written every message, in order.
+   The [wait] parameter is read from the source on every run (the waits_... constants of GenConsts). *)
+Theorem C11_flushed_displayrtcm3 : forall (V : Type) lat cap (ms : list V) c, (1 <= cap)%nat ->
+  reachable _ _ _ (prog V lat false waits_displayrtcm3) sender receiver (MDone V) (init V cap ms) c ->
+  returned V (main_out V c) = true -> writes V (writer_out V c) = ms.
+Proof.
+  intros V lat cap ms c Hc Hr Hret.
+  exact (proj1 (flushed_at_return V lat false waits_displayrtcm3 cap ms c eq_refl Hc Hr Hret)).
+Qed.
+Print Assumptions C11_flushed_displayrtcm3.
+
+Theorem C11_flushed_rtcmfilter : forall (V : Type) lat cap (ms : list V) c, (1 <= cap)%nat ->
+  reachable _ _ _ (prog V lat false waits_rtcmfilter) sender receiver (MDone V) (init V cap ms) c ->
+  returned V (main_out V c) = true -> writes V (writer_out V c) = ms.
+Proof.
+  intros V lat cap ms c Hc Hr Hret.
+  exact (proj1 (flushed_at_return V lat false waits_rtcmfilter cap ms c eq_refl Hc Hr Hret)).
+Qed.
+Print Assumptions C11_flushed_rtcmfilter.
+
+(* No schedule deadlocks: a configuration in which nothing can move is the one where the entry
+   point has returned and the writer has finished. *)
+Theorem C11_no_deadlock : forall (V : Type) lat cap (ms : list V) c, (1 <= cap)%nat ->
+  reachable _ _ _ (prog V lat false true) sender receiver (MDone V) (init V cap ms) c ->
+  final_config _ _ _ (prog V lat false true) sender receiver (MDone V) c ->
+  nth 0%nat (procs c) (MDone V) = MDone V /\ nth 1%nat (procs c) (MDone V) = WHalt V.
+Proof. intros V lat cap ms c Hc. exact (no_deadlock V lat false true cap ms c eq_refl Hc). Qed.
+Print Assumptions C11_no_deadlock.
+
+(* The protocol without the wait (the code before its repair) loses output: main has returned and
+   the writer has written nothing. *)
+Theorem C11_unrepaired_witness :
+  exists c, run (st nat) nat (ev nat) (prog nat 0%nat false false) sender receiver (MDone nat) (init nat 1%nat [7]%nat) [0; 0; 0]%nat = Some c /\
+            returned nat (main_out nat c) = true /\ writes nat (writer_out nat c) = []%list.
+Proof. exact unrepaired_witness. Qed.
+Print Assumptions C11_unrepaired_witness.
+
+(* ===================== C16 ===================== *)
+(* rtcmlogger: the copy loop writes each block to stdout itself (pass-through), hands a copy to
+   the recorder goroutine, and at end of input closes the channel and waits for the recorder.
+   In every reachable configuration in which the program has ended (main has returned), stdout
+   and the record both hold exactly the input blocks, complete and in order. *)
+Theorem C16_logger : forall (V : Type) lat cap (blocks : list V) c, (1 <= cap)%nat ->
+  reachable _ _ _ (prog V lat true waits_rtcmlogger) sender receiver (MDone V) (init V cap blocks) c ->
+  returned V (main_out V c) = true ->
+  passes V (main_out V c) = blocks /\ writes V (writer_out V c) = blocks.
+Proof.
+  intros V lat cap blocks c Hc Hr Hret.
+  destruct (flushed_at_return V lat true waits_rtcmlogger cap blocks c eq_refl Hc Hr Hret) as [A B].
+  split; [apply B; reflexivity|exact A].
+Qed.
+Print Assumptions C16_logger.
+
+Theorem C16_no_deadlock : forall (V : Type) lat cap (blocks : list V) c, (1 <= cap)%nat ->
+  reachable _ _ _ (prog V lat true true) sender receiver (MDone V) (init V cap blocks) c ->
+  final_config _ _ _ (prog V lat true true) sender receiver (MDone V) c ->
+  nth 0%nat (procs c) (MDone V) = MDone V /\ nth 1%nat (procs c) (MDone V) = WHalt V.
+Proof. intros V lat cap blocks c Hc. exact (no_deadlock V lat true true cap blocks c eq_refl Hc). Qed.
+Print Assumptions C16_no_deadlock.
+
+Example C16_example :
+  exists c, run (st nat) nat (ev nat) (prog nat 1%nat true true) sender receiver (MDone nat) (init nat 1%nat [4; 5]%nat)
+              [0; 0; 1; 0; 1; 1; 0; 1; 1; 1; 0; 1; 1; 0; 0]%nat = Some c /\
+            returned nat (main_out nat c) = true /\ passes nat (main_out nat c) = [4; 5]%nat /\ writes nat (writer_out nat c) = [4; 5]%nat.
+Proof. eexists. split; [vm_compute; reflexivity|]. repeat split. Qed.
+
+(* ===================== C07 (full decoding) ===================== *)
+(* For arbitrary bytes - in particular CRC-valid frames whose payload is shorter than or
+   inconsistent with what the message type requires, masks announcing more cells than fit -
+   the MSM4 and MSM7 decoders (header, satellite cells, the cell-count inference, signal cells,
+   attachment) and the 1005/1006 decoders return a message or an error, never a panic
+   (no bit is read outside the buffer). *)
+Theorem C07_decoders : forall b,
+  decode_msm4 b <> Panic /\ decode_msm7 b <> Panic /\ decode1005 b <> Panic /\ decode1006 b <> Panic.
+Proof.
+  intros b. split; [apply decode_msm4_no_panic|]. split; [apply decode_msm7_no_panic|]. split.
+  - destruct (decode1005_total b) as [(m & -> & _)|[->| ->]]; discriminate.
+  - destruct (decode1006_total b) as [(m & -> & _)|[->| ->]]; discriminate.
+Qed.
+Print Assumptions C07_decoders.
